@@ -1,13 +1,13 @@
 #!/bin/bash
 # usage: seedrun.sh <ID> <N> [tier]   — confirm a sub-agent's change (confirm_seed.sh), then run the property's check on it in the
-# isolated lab (mutlab.sh) and append a result line to /verif/seeded/RESULTS-round$([ "$n" -ge 5 ] && echo 3 || echo 2).txt
+# isolated lab (mutlab.sh) and append a result line to /verif/seeded/RESULTS-round$(( (n+1)/2 )).txt
 id="$1"; n="$2"; tier="${3:-quick}"
 cd /verif
 ./confirm_seed.sh $id $n > /tmp/seed/confirm.$id.$n.txt 2>&1
 tail -2 /tmp/seed/confirm.$id.$n.txt
-[ -d seeded/$id-$n ] || { echo "$id-$n NOT-CONFIRMED" >> seeded/RESULTS-round$([ "$n" -ge 5 ] && echo 3 || echo 2).txt; exit 1; }
+[ -d seeded/$id-$n ] || { echo "$id-$n NOT-CONFIRMED" >> seeded/RESULTS-round$(( (n+1)/2 )).txt; exit 1; }
 out=$(./mutlab.sh seeded/$id-$n/patch.diff $id --tier $tier 2>&1)
 echo "$out"
 rc=$(echo "$out" | grep -o 'exit=.*' | cut -d= -f2)
 cl=$(echo "$out" | grep -oE "harness=[^ ]+ clause=[^ ]+" | head -4 | tr '\n' ';')
-echo "$id-$n rc=$rc $cl" >> seeded/RESULTS-round$([ "$n" -ge 5 ] && echo 3 || echo 2).txt
+echo "$id-$n rc=$rc $cl" >> seeded/RESULTS-round$(( (n+1)/2 )).txt
